@@ -197,6 +197,9 @@ def check_arith_cast(crate, rep, cfg):
                     loops = b.loops()
                     ok = any(bb in l for l in loops)
                     why = "index inside the loop whose bounds are the clamped [lo, hi]"
+                if not ok and cmp_range_guarded(b, bb, rv["op"]):
+                    ok = True
+                    why = "dominated by the edges `x >= 0` and `x < bound` of comparisons on the same value"
                 what = "narrowing cast %s->%s in %s is %s" % (rv["from"], rv["to"], root.rsplit("::", 1)[-1], why or "range-guarded")
                 (rep.ok if ok else rep.bad)("C14.CAST", key, b.where(bb, idx), what if ok else what + " — VIOLATED: an out-of-range index would be truncated into a valid one")
         # saturating arithmetic present where the design says so
@@ -339,3 +342,40 @@ def check_len_agreement(crate, rep, cfg):
         rep.add("C14.LEN", "C14.LEN:slice:string-by-chars#%d" % k, ok, sl.where(bb), "for a string, slice_items receives the collected chars()/graphemes() of the string (element type %s)"
                 % a0[:30] + ("" if ok else " — VIOLATED: positions would count something other than characters"))
     rep.floor("C14.LEN", "string calls of slice_items [%s]" % cfg, k, 1)
+
+
+def cmp_range_guarded(b, bb, op):
+    """the cast operand x is known to satisfy 0 <= x < bound at bb: dominated by an edge establishing x >= 0 (or x > -1) and an edge
+    establishing x < something / x <= something, both comparisons reading the same source as the cast"""
+    import rpanic
+    X = rpanic.src_of(b, op)
+    lower = upper = False
+    for sb in sorted(b.reachable):
+        st = b.term(sb)
+        if st["k"] != "switch" or sb == bb or not b.dominates(sb, bb):
+            continue
+        c = rpanic.cmp_of(b, st["op"])
+        if not c:
+            continue
+        cop, l, r, neg = c
+        edges = [(v != "0", tgt) for v, tgt in st["targets"]]
+        if len(st["targets"]) == 1:
+            edges.append((st["targets"][0][0] == "0", st["otherwise"]))
+        for truth, tgt in edges:
+            if tgt == sb or not b.dominates(tgt, bb) or len(b.pred[tgt]) != 1:
+                continue
+            t = (truth != neg)
+            # normalise to a statement about X on this edge
+            if l == X:
+                rel = {("Lt", True): "<", ("Lt", False): ">=", ("Le", True): "<=", ("Le", False): ">", ("Gt", True): ">", ("Gt", False): "<=", ("Ge", True): ">=", ("Ge", False): "<"}[(cop, t)]
+                other = r
+            elif r == X:
+                rel = {("Lt", True): ">", ("Lt", False): "<=", ("Le", True): ">=", ("Le", False): "<", ("Gt", True): "<", ("Gt", False): ">=", ("Ge", True): "<=", ("Ge", False): ">"}[(cop, t)]
+                other = l
+            else:
+                continue
+            if rel == ">=" and other == ("c", "0") or rel == ">" and other == ("c", "-1"):
+                lower = True
+            if rel in ("<", "<=") and other != ("c", "0"):
+                upper = True
+    return lower and upper
